@@ -345,12 +345,25 @@ def sym_obs(s):
     return [S(s.name), canon(s.entry)]
 
 
-def tags_part(dyn):
+def tags_part(dyn, fresh=None):
     def tags():
         by_iter = [tag_obs(t) for t in dyn.iter_tags()]
         by_index = [tag_obs(dyn.get_tag(i)) for i in range(len(by_iter))]
         if by_iter != by_index:
             raise AssertionError('iter_tags disagrees with get_tag')
+        if fresh is not None and by_iter:
+            # random access FIRST, on an object that has walked nothing yet, in descending / middle-out order, then the
+            # walk and the count on that same object: answers must not depend on the order of the queries (a seeded
+            # per-object list of parsed entries filed entry k at the next free position was missed while get_tag was
+            # only called in ascending order after a full walk)
+            d = fresh()
+            n = len(by_iter)
+            order = list(range(n - 1, -1, -1)) if n % 2 else [n // 2] + [i for i in range(n - 1, -1, -1) if i != n // 2]
+            for i in order:
+                if tag_obs(d.get_tag(i)) != by_iter[i]:
+                    raise AssertionError('get_tag(%d) asked out of order on a fresh object disagrees with iter_tags' % i)
+            if [tag_obs(t) for t in d.iter_tags()] != by_iter or d.num_tags() != dyn.num_tags():
+                raise AssertionError('iter_tags / num_tags after out-of-order get_tag calls disagree with a fresh walk')
         return by_iter
     return {'tags': run_impl(tags), 'num_tags': run_impl(lambda: dyn.num_tags())}
 
@@ -377,15 +390,15 @@ def impl_observe(data, names, tagq):
     f = ELFFile(io.BytesIO(data))
 
     def sec_view():
-        for s in f.iter_sections():
+        for i, s in enumerate(f.iter_sections()):
             if isinstance(s, DynamicSection):
-                return tags_part(s)
+                return tags_part(s, fresh=lambda: f.get_section(i))
         return None
 
     def seg_view():
         for idx, s in enumerate(f.iter_segments()):
             if isinstance(s, DynamicSegment):
-                d = tags_part(s)
+                d = tags_part(s, fresh=lambda: f.get_segment(idx))
                 d['num_symbols'] = run_impl(lambda: s.num_symbols())
                 # an abandoned partial walk on the same object first (callers break out of iter_symbols()); the
                 # number of items taken is derived from the content so that the case replays identically
